@@ -1377,7 +1377,19 @@ func (w *who) size() int {
 func addrRoot(v ssa.Value) ssa.Value {
 	if fa, ok := v.(*ssa.FieldAddr); ok {
 		if _, nested := fa.X.(*ssa.FieldAddr); nested {
-			return v // inner object: neither parameter nor fresh object itself
+			// inner object of an embedded struct: fresh if the outermost object is a fresh allocation
+			root := ssa.Value(fa)
+			for {
+				f2, ok := root.(*ssa.FieldAddr)
+				if !ok {
+					break
+				}
+				root = f2.X
+			}
+			if _, isAlloc := root.(*ssa.Alloc); isAlloc {
+				return root
+			}
+			return v // inner object of a parameter or unknown object
 		}
 		return fa.X
 	}
@@ -1434,8 +1446,75 @@ func (e *Enc) classifyWrite(fn *ssa.Function, in ssa.Instruction, k string, w *w
 		w.fresh = true
 	case *ssa.Call, *ssa.Defer:
 		c := callCommonOf(in)
+		// argument i of the callee's parameter list (receiver first)
+		argOf := func(pi int) ssa.Value {
+			if c.IsInvoke() {
+				if pi == 0 {
+					return c.Value
+				}
+				pi--
+			}
+			if pi < len(c.Args) {
+				return c.Args[pi]
+			}
+			return nil
+		}
+		translate := func(cw *who) {
+			if cw == nil {
+				return
+			}
+			if cw.other {
+				w.other = true
+			}
+			if cw.fresh {
+				w.fresh = true
+			}
+			for pi := range cw.params {
+				a := argOf(pi)
+				if a == nil {
+					w.other = true
+					continue
+				}
+				if mi, ok := a.(*ssa.MakeInterface); ok {
+					a = mi.X
+				}
+				cls, i := classOf(addrRoot(a))
+				if _, direct := a.(*ssa.FieldAddr); direct {
+					cls = "other" // pointer to an embedded struct: not the object itself
+				}
+				switch cls {
+				case "fresh":
+					w.fresh = true
+				case "param":
+					w.params[i] = true
+				default:
+					w.other = true
+				}
+			}
+		}
+		if c.IsInvoke() {
+			iface, ok := c.Value.Type().Underlying().(*types.Interface)
+			if !ok {
+				w.other = true
+				return
+			}
+			_ = iface
+			impls, found := e.P.implementers(c)
+			for _, fn2 := range impls {
+				if !isRepoFunc(fn2) {
+					continue
+				}
+				if _, has := e.modsetMemo[fn2][k]; has {
+					translate(e.whoMemo[fn2][k])
+				}
+			}
+			if !found {
+				w.other = true
+			}
+			return
+		}
 		callee := c.StaticCallee()
-		if callee == nil || c.IsInvoke() || !isRepoFunc(callee) || len(callee.Blocks) == 0 {
+		if callee == nil || !isRepoFunc(callee) || len(callee.Blocks) == 0 {
 			w.other = true
 			return
 		}
@@ -1447,35 +1526,7 @@ func (e *Enc) classifyWrite(fn *ssa.Function, in ssa.Instruction, k string, w *w
 			w.other = true
 			return
 		}
-		cw := e.whoMemo[callee][k]
-		if cw == nil {
-			// key not (yet) in the callee's map: nothing to add in this round
-			return
-		}
-		if cw.other {
-			w.other = true
-		}
-		if cw.fresh {
-			w.fresh = true
-		}
-		for pi := range cw.params {
-			if pi >= len(c.Args) {
-				w.other = true
-				continue
-			}
-			cls, i := classOf(addrRoot(c.Args[pi]))
-			if _, direct := c.Args[pi].(*ssa.FieldAddr); direct {
-				cls = "other" // pointer to an embedded struct: not the object itself
-			}
-			switch cls {
-			case "fresh":
-				w.fresh = true
-			case "param":
-				w.params[i] = true
-			default:
-				w.other = true
-			}
-		}
+		translate(e.whoMemo[callee][k])
 	default:
 		w.other = true
 	}
@@ -1777,42 +1828,22 @@ func (e *Enc) invokeModKeys(c *ssa.CallCommon, m map[string]*Sort) {
 	if _, ok := e.P.Spec.defaultEffect(key, nil); ok {
 		return
 	}
-	iface, ok := it.Underlying().(*types.Interface)
-	if !ok {
+	if _, ok := it.Underlying().(*types.Interface); !ok {
 		m["*"] = BoolS
 		e.noteUnknown("invoke on non-interface " + it.String())
 		return
 	}
-	found := false
-	for _, nk := range e.P.sortedNamed() {
-		n := e.P.Named[nk]
-		if _, isIface := n.Underlying().(*types.Interface); isIface {
+	impls, found := e.P.implementers(c)
+	for _, fn := range impls {
+		if !isRepoFunc(fn) {
 			continue
 		}
-		for _, t := range []types.Type{n, types.NewPointer(n)} {
-			if !types.Implements(t, iface) {
-				continue
-			}
-			sel := e.P.SSA.MethodSets.MethodSet(t).Lookup(c.Method.Pkg(), c.Method.Name())
-			if sel == nil {
-				continue
-			}
-			fn := e.P.SSA.MethodValue(sel)
-			if fn == nil {
-				continue
-			}
-			found = true
-			if !isRepoFunc(fn) {
-				continue
-			}
-			k2 := funcKey(fn)
-			if fc := e.P.Cs.Funcs[k2]; fc != nil && fc.Pure {
-				continue
-			}
-			for k, s := range e.calleeModset(fn) {
-				m[k] = s
-			}
-			break
+		k2 := funcKey(fn)
+		if fc := e.P.Cs.Funcs[k2]; fc != nil && fc.Pure {
+			continue
+		}
+		for k, s := range e.calleeModset(fn) {
+			m[k] = s
 		}
 	}
 	if !found {
